@@ -65,6 +65,13 @@ def close_replace_case(via):
 def instances(tier):
     from symtdf.runner import Instance
     out = cstep.instances_for("C11", tier)
+    # Tdf.new-sized tables (14 slots) that end up holding exactly two blocks, for every ordered
+    # pair of the writable types: the presence checks and getters are evaluated on each
+    writable = [2, 4, 5, 6, 7, 9, 11, 12, 16]
+    for t1 in writable:
+        for t2 in writable:
+            if t1 < t2 or (tier != "quick" and t1 != t2):
+                out.append(Instance(f"N14.live{t1}.add_{t2}_default", cstep.step_case("C11", 14, (t1,), (("add", t2, "default"),)), goals=["done"], cost=14))
     for via in ("setter", "replace", "replace_same_comment"):
         out.append(Instance(f"close_block.{via}", close_replace_case(via), goals=["done"], cost=20))
     return out
